@@ -46,6 +46,8 @@ pub enum Action {
     Fetched(u8),
     /// prefix-only: run the cluster FIFO to quiescence (no ticks)
     Settle,
+    /// prefix-only: process every pending Ready (and persistence) of one node
+    Settle0(u8),
     /// prefix-only: drop every in-flight message addressed to / sent by this node
     Isolate(u8),
     /// prefix-only: drop all in-flight messages
